@@ -198,6 +198,10 @@ def check_S3(ctx, facts):
                 true_t = st['otherwise'] if 0 in tm else tm.get(1)
                 if true_t is not None and all(body.edge_dominates((sb, true_t), ob) for ob in oks):
                     gd = True
+                # the same through a flag (`let timed_out = loop { .. break true / break false }; .. if timed_out { Err } else { Ok }`):
+                # with the is_done edge taken away no Ok return is reachable on a feasible path
+                elif true_t is not None and oks and not (set(oks) & refined_reach(body, [0], blocked_edges=[(sb, true_t)])):
+                    gd = True
         ge = False
         for b, t in exp:
             for sb, st in switch_on(body, t['dest']['l']):
